@@ -205,7 +205,8 @@ type vfC09Case struct {
 	Pings       bool
 	CSR         bool
 	SubCSR      bool
-	ConnectMode int  // 0 ok, 1 error reply, 2 disconnect, 3 no credentials
+	ConnectMode int  // 0 ok, 1 error reply, 2 disconnect, 3 no credentials, 4 ok but a connect-time subscription is rejected with a client error
+	KeepFeeding bool // after a failed connect the caller keeps delivering commands (as the emulation endpoint does) instead of closing
 	Wild        int  // 0 well-behaved client, 1 mixed, 2 anything goes
 	Frames      bool // commands are encoded and fed through HandleReadFrame
 	NoHandlers  uint // bit i set: handler i is NOT registered
@@ -251,8 +252,8 @@ func (c vfC09Case) String() string {
 	for i, b := range c.Behavs {
 		bs[i] = fmt.Sprintf("%d/%d/%d", b.Mode, b.ErrKind, b.Variant)
 	}
-	return fmt.Sprintf("proto=%s wild=%d pings=%v csr=%v subcsr=%v connectMode=%d noHandlers=%b behavs=[%s] steps=[%s] finalOrder=%v finalRes=%v", c.Proto, c.Wild, c.Pings,
-		c.CSR, c.SubCSR, c.ConnectMode, c.NoHandlers, strings.Join(bs, " "), strings.Join(st, "; "), c.FinalOrder, c.FinalRes)
+	return fmt.Sprintf("proto=%s wild=%d pings=%v csr=%v subcsr=%v connectMode=%d keepFeeding=%v noHandlers=%b behavs=[%s] steps=[%s] finalOrder=%v finalRes=%v", c.Proto, c.Wild, c.Pings,
+		c.CSR, c.SubCSR, c.ConnectMode, c.KeepFeeding, c.NoHandlers, strings.Join(bs, " "), strings.Join(st, "; "), c.FinalOrder, c.FinalRes)
 }
 
 func vfC09GenCmd(rt *rapid.T, wild int, nextID *uint32, csr, subcsr bool) vfC09Cmd {
@@ -331,7 +332,8 @@ func vfC09Gen(rt *rapid.T) vfC09Case {
 	c.Pings = rapid.IntRange(0, 2).Draw(rt, "pings") == 0
 	c.CSR = rapid.Bool().Draw(rt, "csr")
 	c.SubCSR = rapid.Bool().Draw(rt, "subcsr")
-	c.ConnectMode = rapid.SampledFrom([]int{0, 0, 0, 0, 0, 0, 0, 0, 0, 0, 0, 0, 0, 0, 0, 0, 0, 0, 0, 0, 1, 2, 3}).Draw(rt, "connectMode")
+	c.ConnectMode = rapid.SampledFrom([]int{0, 0, 0, 0, 4, 0, 0, 0, 1, 0, 0, 4, 0, 0, 0, 2, 0, 0, 3, 0, 4, 1}).Draw(rt, "connectMode")
+	c.KeepFeeding = rapid.SampledFrom([]bool{true, true, false}).Draw(rt, "keepFeeding")
 	switch rapid.IntRange(0, 7).Draw(rt, "mask") {
 	case 0:
 		c.NoHandlers = 1 << uint(rapid.IntRange(0, 10).Draw(rt, "noHandler"))
@@ -642,6 +644,11 @@ func vfC09Run(t *testing.T, cs vfC09Case, out *vfC09Out, isKnown func(string) bo
 				return ConnectReply{}, DisconnectInvalidToken
 			case 3:
 				return ConnectReply{}, nil
+			case 4:
+				// credentials are fine (the connection gets authenticated) but the connect-time subscription is expired:
+				// the connect command is answered with a client error
+				return ConnectReply{Credentials: &Credentials{UserID: "u"},
+					Subscriptions: map[string]SubscribeOptions{"ch1": {ExpireAt: time.Now().Unix() - 10}}}, nil
 			}
 			cr := &Credentials{UserID: "u"}
 			if cs.CSR {
@@ -894,8 +901,12 @@ func vfC09Run(t *testing.T, cs vfC09Case, out *vfC09Out, isKnown func(string) bo
 				if c, _ := closed(); !c {
 					flushParked()
 					if c2, _ := closed(); !c2 {
-						conn.TransportClose()
-						vfSettle()
+						if cs.KeepFeeding && !authed() {
+							label("kept_feeding_after_failed_connect")
+						} else {
+							conn.TransportClose()
+							vfSettle()
+						}
 					}
 				}
 			}
